@@ -22,7 +22,7 @@ Definition call_result (ty : N) (results : list N) : Prop :=
 
 Definition untyped_kind (k : kind) : Prop :=
   match k with
-  | KUnOp | KChangeType | KConvert | KMultiConvert | KSliceToArray | KCompositeValue | KJump | KUnreachable
+  | KChangeType | KConvert | KMultiConvert | KSliceToArray | KCompositeValue | KJump | KUnreachable
   | KConstantSwitch | KRunDefers | KBlankStore | KDebugRef | KOther | KBad => True
   | _ => False
   end.
@@ -35,7 +35,10 @@ Inductive instr_typed (i : instr) : Prop :=
 | ty_binop_arith : forall x y, i_kind i = KBinOp -> i_aux i = [0] -> i_ops i = [x; y] ->
     snd x = i_ty i -> snd y = i_ty i -> instr_typed i
 | ty_binop_shift : forall x y, i_kind i = KBinOp -> i_aux i = [1] -> i_ops i = [x; y] -> snd x = i_ty i -> instr_typed i
-| ty_binop_compare : forall x y, i_kind i = KBinOp -> i_aux i = [2] -> i_ops i = [x; y] -> is_bool T (i_ty i) = true -> instr_typed i
+| ty_binop_compare : forall x y, i_kind i = KBinOp -> i_aux i = [2] -> i_ops i = [x; y] -> is_bool T (i_ty i) = true ->
+    (snd x = snd y \/ core T (snd x) = 0 \/ core T (snd y) = 0 \/ (ckind T (snd x) = TChan /\ ckind T (snd y) = TChan) \/
+     (core T (snd x) = core T (snd y) /\ (is_unnamed T (snd x) = true \/ is_unnamed T (snd y) = true))) -> instr_typed i
+| ty_unop : i_kind i = KUnOp -> (i_aux i = [0] -> exists x, i_ops i = [x] /\ snd x = i_ty i) -> instr_typed i
 | ty_fieldaddr : forall x, i_kind i = KFieldAddr -> i_ops i = [x] ->
     (core T (snd x) = 0 \/
      exists k, i_aux i = [k] /\
@@ -202,8 +205,21 @@ Proof.
   destruct (i_aux i) as [|c [|? ?]] eqn:Ea; [discriminate| |kill H].
   destruct c as [|[p|[p|p|]|]]; simpl in H; try discriminate.
   - bsplit. eapply ty_binop_arith; eauto.
-  - eapply ty_binop_compare; eauto.
+  - apply andb_true_iff in H as [Hb Hc]. eapply ty_binop_compare; eauto.
+    apply orb_true_iff in Hc as [Hc|Hc];
+      [|right; right; right; right; apply andb_true_iff in Hc as [Hc1 Hc2]; apply N.eqb_eq in Hc1;
+        apply orb_true_iff in Hc2; auto].
+    apply orb_true_iff in Hc as [Hc|Hc]; [|right; right; right; left; bsplit; auto].
+    apply orb_true_iff in Hc as [Hc|Hc]; [|right; right; left; now apply has_core_false].
+    apply orb_true_iff in Hc as [Hc|Hc]; [left; now apply N.eqb_eq|right; left; now apply has_core_false].
   - bsplit. eapply ty_binop_shift; eauto.
+Qed.
+
+Lemma ok_unop : i_kind i = KUnOp -> instr_typed i.
+Proof.
+  intros Ek. unfold type_ok in H; rewrite Ek in H. apply ty_unop; [assumption|]. intros Ea. rewrite Ea in H.
+  apply andb_true_iff in H as [Hl H]. destruct (len1 _ Hl) as (x & Eo). exists x. split; [assumption|].
+  rewrite Eo in H. unfold opty in H; simpl in H. now apply N.eqb_eq.
 Qed.
 
 Lemma ok_fieldaddr : i_kind i = KFieldAddr -> instr_typed i.
@@ -394,7 +410,7 @@ Theorem type_ok_sound : forall i, type_ok T f i = true -> instr_typed i.
 Proof.
   intros i H. destruct (i_kind i) eqn:Ek;
     try (apply ty_none; rewrite Ek; exact I);
-    first [ now apply ok_alloc | now apply ok_phi | apply ok_call; auto; fail | now apply ok_binop | now apply ok_load
+    first [ now apply ok_unop | now apply ok_alloc | now apply ok_phi | apply ok_call; auto; fail | now apply ok_binop | now apply ok_load
           | now apply ok_changeinterface | now apply ok_slicetoarrayptr | now apply ok_makeinterface | now apply ok_makeclosure
           | now apply ok_makemap | now apply ok_makechan | now apply ok_makeslice | now apply ok_slice | now apply ok_fieldaddr
           | now apply ok_field | now apply ok_indexaddr | now apply ok_index | now apply ok_maplookup | now apply ok_stringlookup
